@@ -57,6 +57,9 @@ def _jobs(tier):
                 yield ("fmt", how, f, [("s", a) for a in args])
 
 
+LITERALS = [b"{}", b"a{}b{}", b"{{}}", b"", b"{} {}{} }{"]
+
+
 def _typed(rng):
     kinds = []
     n = rng.randint(0, 5)
@@ -107,10 +110,15 @@ def _random_jobs(rng, n):
             n_args = rng.randint(1, 6)
             yield ("raise", rng.choice("nc") if n_args <= 2 else "n", n_args,
                    [rng.choice(POOL + [b"msg ", b"a b"]) for _ in range(6)], [rng.randint(-50, 50) for _ in range(6)])
-        else:
+        elif r < 0.96:
             f = b"".join(rng.choice(pieces) for _ in range(rng.randint(0, 6)))
             k = len(f.split(b"{}")) - 1
             yield ("raisef", f, [rng.choice(POOL) for _ in range(k)])
+        else:
+            idx = rng.randrange(len(LITERALS))
+            k = len(LITERALS[idx].split(b"{}")) - 1
+            n_args = rng.choice([k, k, k, max(0, k - 1), k + 1])
+            yield ("fmt", "L%d" % idx, LITERALS[idx], [("s", rng.choice(POOL)) for _ in range(n_args)])
 
 
 def _argtok(k, v):
@@ -122,6 +130,8 @@ def _argtok(k, v):
 
 
 def op_line(job):
+    if job[0] == "fmt" and job[1].startswith("L"):
+        return " ".join(["FMTL", job[1][1:]] + [_argtok(k, v) for k, v in job[3]])
     if job[0] == "fmt":
         return " ".join(["FMT", job[1], hx(job[2])] + [_argtok(k, v) for k, v in job[3]])
     if job[0] == "raise":
@@ -232,7 +242,7 @@ def _work(arg):
             k = len(job[2].split(b"{}")) - 1
             n = len(job[3])
             S.counters["arity:" + ("right" if n == k else ("more" if n > k else "fewer"))] += 1
-            S.counters["route:" + job[1]] += 1
+            S.counters["route:" + ("literal" if job[1].startswith("L") else job[1])] += 1
             if any(b"{}" in (v if isinstance(v, bytes) else b"") for _, v in job[3]):
                 S.counters["argument-contains-placeholder"] += 1
             if k > 0 or n != k:
